@@ -97,6 +97,35 @@ def list_task(t):
     return dict(n=n, distinct=len(distinct), violations=viols, sample=sample)
 
 
+def boundary_task(t):
+    """replies longer than the client's read size: every alignment of the protocol structure with the 4096-byte read boundary"""
+    lo, hi = t
+    viols = []
+    n = 0
+    for k in range(lo, hi):
+        body = b"#" + b"a" * k + b"\r\nkeep;\r\n{5}\r\nOK\r\n"
+        srv = refms.RefServer(store={"s": body}, active=None)
+        s = wire.open_session(srv)
+        o = s.call("getscript", "s")
+        n += 1
+        if not (o.kind == "ret" and isinstance(o.value, str) and norm_lines(o.value) == norm_lines(body)):
+            viols.append({"property": "C17", "engine": "wire", "signature": ["C17", "getscript", "read-size-boundary", "wrong-value" if o.kind == "ret" else o.kind],
+                          "what": "body of %d bytes read back as %s" % (len(body), o.brief()[:80]), "case": {"kind": "boundary-body", "k": k},
+                          "witness": "getscript of a %d-byte body" % len(body), "observed": o.brief()[:120]})
+        names = ["x" * k, 'lit"name', "main"]
+        ch = refms.FixedChoices({"list-name-literal": (lambda i: 1 if i >= 1 else 0)})
+        srv = refms.RefServer(ch=ch, store={nm: b"keep;\r\n" for nm in names}, active="main")
+        s = wire.open_session(srv)
+        o = s.call("listscripts")
+        n += 1
+        ok = (o.kind == "ret" and isinstance(o.value, tuple) and len(o.value) == 2 and o.value[0] == "main" and sorted(o.value[1] or []) == sorted(names[:2]))
+        if not ok:
+            viols.append({"property": "C17", "engine": "wire", "signature": ["C17", "listscripts", "read-size-boundary", "wrong-value" if o.kind == "ret" else o.kind],
+                          "what": "listing with a %d-character first name read back as %s" % (k, o.brief()[-120:]), "case": {"kind": "boundary-list", "k": k},
+                          "witness": "listscripts with a %d-character first name" % k, "observed": o.brief()[-120:]})
+    return dict(n=n, distinct=n, violations=viols, sample=None)
+
+
 def run(tier, seed):
     maxlines = 3 if tier == "quick" else 4
     maxn = 3 if tier == "quick" else 4
@@ -108,7 +137,8 @@ def run(tier, seed):
     lt = [(lo, lo + step2, maxn) for lo in range(0, ns_, step2)]
     r1 = pool.run_tasks("checks.c17:body_task", bt)
     r2 = pool.run_tasks("checks.c17:list_task", lt)
-    res = r1 + r2
+    r3 = pool.run_tasks("checks.c17:boundary_task", [(lo, lo + 8) for lo in range(4040, 4120, 8)] + ([(lo, lo + 8) for lo in range(8130, 8220, 8)] if tier != "quick" else []))
+    res = r1 + r2 + r3
     n = sum(r["n"] for r in res)
     viols = []
     for r in res:
@@ -123,6 +153,9 @@ def run(tier, seed):
 
 def replay(payload):
     c = payload["case"]
+    if c["kind"].startswith("boundary"):
+        r = boundary_task((c["k"], c["k"] + 1))
+        return [v for v in r["violations"] if v["case"]["kind"] == c["kind"]]
     if c["kind"] == "body":
         body = bytes.fromhex(c["body_hex"])
         srv = refms.RefServer(ch=refms.FixedChoices({"getscript-quoted": c["quoted"]}), store={"s": body}, active=None)
